@@ -38,7 +38,11 @@ func MainWith(prop, tier string, post func(*vk.Run)) int {
 		r.Assumptions = []string{"V2 with a slab smaller than N*M is a documented fallback to V1 and excluded from the nil-vs-slab equality"}
 	}
 	n := vk.NumWorkers()
-	r.Fanout("algo", n, 40*time.Minute)
+	wd := 40 * time.Minute
+	if !r.Quick() {
+		wd = 150 * time.Minute
+	}
+	r.Fanout("algo", n, wd)
 	if prop == "C05" {
 		r.Floor("pairs_compared", 1000)
 	}
@@ -72,7 +76,7 @@ func worker(r *vk.Run, w, n int, args []string) {
 func (c *checker) exhaustive(w, n int, quick bool) {
 	L, P := 4, 2
 	if !quick {
-		L, P = 6, 3
+		L, P = 5, 3
 	}
 	var pats [][]rune
 	var gen func(cur []rune, depth int)
